@@ -94,10 +94,10 @@ def gen(fn_texts, blk_texts):
         ids += ['%s_%s' % (key, m) for m in members if m not in nested]
         I = lambda m: 'ID_%s_%s' % (key, m)
         conj = lambda xs: ' &&\n        '.join(xs) if xs else '1'
-        out['post_T_' + key] = conj(['g_cleared[%s] == true' % I(m) for m in ct['T'] + ct['P']])
+        out['post_T_' + key] = '\n    '.join('__CPROVER_assert(g_cleared[%s] == true, "%s reset: every per-transformation member is cleared (member list generated from the header): %s");' % (I(m), key, m) for m in ct['T'] + ct['P'])
         out['post_P_' + key] = conj(['g_primed[%s] == true' % I(m) for m in ct['P']])
         out['post_D_' + key] = conj(['g_cleared[%s] == g_attached[%s]' % (I(m), I(m)) for m in ct['D']])
-        out['post_S_' + key] = conj(['g_cleared[%s] == false' % I(m) for m in ct['S'] + ct['X'] + ct.get('N', [])])
+        out['post_S_' + key] = '\n    '.join('__CPROVER_assert(g_cleared[%s] == false, "%s reset: settings, parameters, installed functors and scratch members are left alone (they stay set until cleared, as documented): %s");' % (I(m), key, m) for m in ct['S'] + ct['X'] + ct.get('N', [])) or ';'
         out['post_K_' + key] = conj(['g_deleted[%s] == true' % I(m) for m in c['deleted'].split()])
     out['ids'] = 'enum { ' + ', '.join('ID_' + i for i in ids) + ', ID_COUNT };'
     return out
@@ -108,18 +108,14 @@ void h_@K@(void)
 {
     xv_init();
     @K@_@ENTRY@(0);
-    __CPROVER_assert(
-        @@GEN post_T_@K@@@,
-        "@K@ reset: every per-transformation member is cleared (member list generated from the header)");
+    @@GEN post_T_@K@@@
     __CPROVER_assert(
         @@GEN post_P_@K@@@,
         "@K@ reset: each stack the constructor primes with one entry is primed again after being cleared");
     __CPROVER_assert(
         @@GEN post_D_@K@@@,
         "@K@ reset: every attached collaborator is reset with it (and only an attached one is dereferenced)");
-    __CPROVER_assert(
-        @@GEN post_S_@K@@@,
-        "@K@ reset: settings, parameters, installed functors and scratch members are left alone (they stay set until cleared, as documented)");
+    @@GEN post_S_@K@@@
     __CPROVER_assert(
         @@GEN post_K_@K@@@,
         "@K@ reset: objects owned by the cleared containers are destroyed first");
